@@ -572,6 +572,7 @@ def _resp_schema(draw, g: Gate, names: list[str]) -> dict:
     kind = g.pick(draw, [
         (None, "ref"), (None, "ref"), (None, "ref"), ("resp_array", "array_ref"), ("resp_inline_object", "inline"), ("resp_prim", "prim"),
         ("resp_array_prim", "array_prim"), ("resp_map", "map"), ("resp_inline_union", "union"), ("resp_any", "any"),
+        ("resp_array_inline_object", "array_inline"), ("resp_array_inline_object", "array_inline"),
     ], fallback="ref")
     if not names and kind in ("ref", "array_ref", "union"):
         kind = "prim"
@@ -591,7 +592,10 @@ def _resp_schema(draw, g: Gate, names: list[str]) -> dict:
     if kind == "any":
         return {}
     props = {pn: _primitive(draw, g) for pn in draw(st.lists(st.sampled_from(PROP_NAMES), min_size=1, max_size=3, unique=True))}
-    return {"type": "object", "properties": props, "required": [next(iter(props))]}
+    obj = {"type": "object", "properties": props, "required": [next(iter(props))]}
+    if kind == "array_inline":
+        return {"type": "array", "items": obj}
+    return obj
 
 
 STREAM_MEDIA = {"text/event-stream", "application/x-ndjson", "application/octet-stream", "image/png", "application/json-seq", "multipart/mixed"}
